@@ -266,7 +266,12 @@ def r2_sequence(program, folder, rep):
     if buf is not None:
         Lb = fl.sym(ast.parse("len(%s)" % buf, mode="eval").body, n_start)
         goal = [lt(B * (cnt - 1), Lb), le(Lb, B * cnt)]
-        ok = fl.prove(n_start, goal, extra=[lt(0, Lb)], use_facts=False)
+        # bytes(<bytearray>) has the bytearray's length
+        Lb2 = fl.sym(ast.parse("len(bytes(%s))" % buf, mode="eval").body,
+                     n_start)
+        same = list(eq(Lb2, Lb)) if Lb2 != Lb else []
+        ok = fl.prove(n_start, goal, extra=[lt(0, Lb)] + same,
+                      use_facts=False)
         rep.check(ok, "C20-R2", inst, "announced count (arg3 + 1) = "
                   "ceil(len(image) / %d): %d*(n-1) < len <= %d*n" % (B, B,
                                                                      B),
@@ -361,13 +366,29 @@ def r3_splice(program, folder, rep):
         return
     sp = splices[0]
     t = sp.targets[0]
-    lo, hi = const(t.slice.lower), const(t.slice.upper)
+    from ..terms import fold_consts
+    TS_ = Terms(fn)
+    spn = TS_.cfg.node_of(sp)
+
+    def tconst_(e_):
+        # a bound given through a temporary folds like the expression itself
+        if e_ is None:
+            return None
+        c_ = const(e_)
+        if c_ is not None:
+            return c_
+        try:
+            f_ = fold_consts(plain(TS_.term(e_, spn)), const)
+        except AnalysisError:
+            return None
+        return f_[1] if f_[0] == "const" else None
+    lo, hi = tconst_(t.slice.lower), tconst_(t.slice.upper)
     v = sp.value
     ok = False
     rhs_len = None
     if isinstance(v, ast.Subscript) and isinstance(v.slice, ast.Slice) and \
             v.slice.lower is None and v.slice.upper is not None:
-        rhs_len = const(v.slice.upper)
+        rhs_len = tconst_(v.slice.upper)
         ok = isinstance(lo, int) and isinstance(hi, int) and \
             hi - lo == rhs_len
     rep.check(ok and (lo, hi) == (384, 512), "C20-R3", inst,
